@@ -1,18 +1,22 @@
 #!/usr/bin/env python3
 """run the registered quick checks against every archived seeded change (applied to /repo, then reverted)"""
 import json, glob, os, subprocess, sys, time
-V = "/verif"
+V = os.path.dirname(os.path.dirname(os.path.abspath(__file__)))
+REPO = os.environ.get("OAS_REPO") or os.environ.get("VP_RUN_REPO") or "/repo"
+os.environ["OAS_REPO"] = REPO
+if not os.path.exists(V + "/lean/.lake/build/bin/oasdriver"):
+    subprocess.run(["/venv/bin/python", "-m", "harness.setup"], cwd=V, check=True, stdout=subprocess.DEVNULL)
 claimed = {c["property_id"] for c in json.load(open(V + "/MANIFEST.json"))["checks"]}
 only = sys.argv[1:]
 res = {}
-assert subprocess.run("git -C /repo status --porcelain --untracked-files=no", shell=True, capture_output=True).stdout.strip() == b"", "repo dirty"
+assert subprocess.run("git -C %s status --porcelain --untracked-files=no" % REPO, shell=True, capture_output=True).stdout.strip() == b"", "repo dirty"
 for d in sorted(glob.glob(V + "/seeded/*/")):
     sid = os.path.basename(d.rstrip("/")); prop = sid.split("_")[0]
     if only and sid not in only and prop not in only:
         continue
     meta = json.load(open(d + "meta.json"))
     props = [prop] + [p for p in meta.get("also_check", []) if p != prop]
-    subprocess.run(["git", "-C", "/repo", "apply", d + "patch.diff"], check=True)
+    subprocess.run(["git", "-C", REPO, "apply", d + "patch.diff"], check=True)
     try:
         out = {}
         for p in props:
@@ -23,7 +27,7 @@ for d in sorted(glob.glob(V + "/seeded/*/")):
             v = [l for l in r.stdout.split("\n") if l.startswith("VIOLATION")]
             out[p] = dict(rc=r.returncode, violation=v[0] if v else None, wall=round(time.time() - t, 1))
     finally:
-        subprocess.run(["git", "-C", "/repo", "checkout", "--", "."], check=True)
+        subprocess.run(["git", "-C", REPO, "checkout", "--", "."], check=True)
         # put the regenerated data files back in the state of the unchanged tree
         subprocess.run(["/venv/bin/python", "-c", "from harness import generate; generate.run(sorted(generate.GENERATORS))"], cwd=V)
     res[sid] = out
